@@ -167,7 +167,9 @@ class P(Prop):
 
     def search(self, n):
         for i in range(n):
-            self.oracle(self.gen_case())
+            c = self.gen_case()
+            self.oracle(c)
+            self.again_after_edit(c, lambda: self.oracle(c), p=0.25)
             if self.too_many():
                 break
 
